@@ -365,6 +365,8 @@ class Ref:
     def ev_val(self, t, o):
         return copy.deepcopy(t[1])
 
+    ev_raw = ev_val
+
     def ev_fn(self, t, o):
         name = t[1]
         f = user_fn(name)
